@@ -509,6 +509,10 @@ pub fn plan(property: &str, tier: Tier, seed: u64) -> Option<Plan> {
             crate::engines::laws::units("C14", tier.pick(300, 3000), seed),
             "IntoOwned laws on every catalogued composition: a case = a source region holding 1..5 generated values, a chosen item x, an arbitrary generated prior value t for the clone_onto target (re-using one of the items a quarter of the time), and a destination region with 0..3 prior items. Checked: into_owned(x) equals the pushed value; borrow_as(&into_owned(x)) passes the deep read oracle (len, get, iteration, into_owned); reborrow(x) passes it; clone_onto from the region-backed and from the owned-borrowed item leaves t equal to the pushed value whatever t held; pushing x and borrow_as(&owned) into the destination region yields an item that passes the deep oracle, leaves the destination's earlier items and the source unchanged. Non-trivial: the prior target value differs from the item's value (longer/shorter/other variant).".to_string(),
         ),
+        "C17" => (
+            crate::engines::alloc::units("C17", !q, seed),
+            "Allocation discipline, observed with heap_size capacities and a counting #[global_allocator] in the harness binary (thread-local counters, switched on only around the measured pushes). (a) every vector-backed structural composition (owned slices, strings, slices of regions with vector index lists, options, results, tuples, vectors as regions; plain-data payload) and FlatStack over them with a vector index container: a case = optional populated prefix, a generated batch (empty items, many small, few large, repeated values, skewed variants, nested slices), one of the routes reserve_items(batch) / reserve_regions(1..3 sources holding the batch) / merge_regions(sources) / FlatStack reserve+reserve_items / merge_capacity, then exactly the announced values are pushed (as borrowed read items built beforehand, so the measured section creates no temporaries): every reported capacity must stay constant and the allocator must not be called. (b) every non-coded plain-data composition: n = 2^6, 2^8, .. 2^14 (thorough 2^16) items from an 8-value pool pushed into a default region: allocator calls <= storages*(log2 n + 10) + 8 and growth per quadrupling <= 2*storages + 6. Non-trivial: batch with >= 8 items, >= 2 distinct payload sizes and >= 64 payload bytes; each (composition, n) of the logarithmic series.".to_string(),
+        ),
         "C05" => (
             crate::engines::index::units("C05", !q, seed, false),
             "Index containers. (a) bounded-exhaustive: every sequence of push(x)/clear over the alphabet {0,1,2,3,4,6,u32::MAX,u32::MAX+1,2^63,usize::MAX,clear} up to length 6 (quick) / 7 (thorough; 9 on a 6-symbol sub-alphabet) applied to Stride, IndexList, IndexOptimized (Vec<usize> to length 5), explored depth-first with cloned state, compared after every op with a Vec<usize> reference (len, is_empty, index(i) for all i, iteration) and, for Stride, with a u128 acceptor of the documented pattern (accept/reject, state unchanged on reject); any panic is a violation. (b) proptest tapes decoded into op lists built from arithmetic runs, repeat runs, boundary values, clear, extend, reserve, serde round trip, clone/clone_from (<= 2000 elements). Non-trivial: >= 3 pushes and the sequence left the pure stride pattern, or a push was rejected, or a clear was followed by reuse; enumerated sequences are distinct by construction, random ones are counted by hash.".to_string(),
@@ -520,11 +524,12 @@ pub fn plan(property: &str, tier: Tier, seed: u64) -> Option<Plan> {
         _ => return None,
     };
     let (mut units, mut rule) = (units, rule);
-    if matches!(property, "C08" | "C09" | "C10" | "C16" | "C18" | "C19") {
+    if matches!(property, "C08" | "C09" | "C10" | "C13" | "C16" | "C18" | "C19") {
         let (sp, n): (&'static str, u32) = match property {
             "C08" => ("C08", tier.pick(120, 1200)),
             "C09" => ("C09", tier.pick(120, 1200)),
             "C10" => ("C10", tier.pick(120, 1200)),
+            "C13" => ("C13", tier.pick(120, 1200)),
             "C16" => ("C16", tier.pick(120, 1200)),
             "C18" => ("C18", tier.pick(120, 1200)),
             _ => ("C19", tier.pick(150, 1500)),
